@@ -208,7 +208,7 @@ def worker(case: Dict[str, Any]) -> CaseResult:
     stats: Dict[str, Any] = {}
     violations: List[Violation] = []
     rng = random.Random(case["seed"] * 29 + case["idx"])
-    spec, feats, gen = generate_schema(case["seed"] * 100003 + case["idx"], {"schema.extend"} if case["idx"] % 4 == 1 else set(), size=case.get("size", "m"), descriptions=True)
+    spec, feats, gen = generate_schema(case["seed"] * 100003 + case["idx"], {"schema.extend"} if case["idx"] % 4 == 1 else {"wrap.deep"} if case["idx"] % 4 == 2 else set(), size=case.get("size", "m"), descriptions=True)
     feats = set(feats)
     enrich(spec, gen, rng, feats)
     if case.get("remote"):
